@@ -1276,7 +1276,7 @@ func shrink(j Job, sig string, drv *hx.Driver, tmp string) Job {
 func main() {
 	o := hx.ParseFlags("C09")
 	res := hx.NewResult(o, "c09: WALReader (NewWALReader/NewWALReaderWithOffset/ReadFrame/PageMap/pageMap/FrameSaltsUntil) vs Lean Wal model + SQLite-recovery oracles")
-	res.Rule = "inputs: real SQLite WALs (modernc; page sizes 512/1024/4096; growth, shrink, spilled uncommitted frames, rollback, VACUUM, up to 3 generations with stale tails) x mutations {truncation at every offset class, bit flips in WAL header / frame header / page, frame duplication over/insert, swaps, stale tails from other WALs, frame and header salt edits, commit-field edits with and without re-checksum, byte-order re-encoding, stacked pairs, E1 forgeries} x ops {PageMap, ReadFrame*, resume at frame boundaries (all for unmutated bases, sampled otherwise) with header/foreign salts and budgets, chunked pageMap with budgets around every commit, FrameSaltsUntil}; oracles: Go re-implementation of SQLite's recovery rule, real SQLite recovery + checkpoint of (db copy, mutated WAL), Lean spec `recover`. non-trivial = the WAL has at least one committed valid frame; distinct = (mutation name, WAL bytes)"
+	res.Rule = "inputs: real SQLite WALs (modernc; page sizes 512/1024/4096; growth, shrink, spilled uncommitted frames, rollback, VACUUM, up to 3 generations with stale tails) x mutations {truncation at every offset class, bit flips in WAL header / frame header / page, frame duplication over/insert, swaps, stale tails from other WALs, frame and header salt edits, commit-field edits with and without re-checksum, byte-order re-encoding, stacked pairs, E1 forgeries} x ops {PageMap, ReadFrame*, resume at frame boundaries (all for unmutated bases, sampled otherwise) with header/foreign salts and budgets, chunked pageMap with budgets around every commit, FrameSaltsUntil}; plus virtual WALs > 4 GiB read through an io.ReaderAt (64 KiB and 32 KiB pages, both byte orders; resume below/at/behind the 2^32 offset mark, ReadFrame across it, budgets stopping before/behind it, one full scan from the header) judged by SQLite's rule computed from the generator parameters; oracles: Go re-implementation of SQLite's recovery rule, real SQLite recovery + checkpoint of (db copy, mutated WAL), Lean spec `recover`. non-trivial = the WAL has at least one committed valid frame; distinct = (mutation name, WAL bytes)"
 	tmp, err := os.MkdirTemp("", "c09-")
 	if err != nil {
 		hx.Fatal(err)
@@ -1301,6 +1301,26 @@ func main() {
 		}
 	}
 	res.Notes = append(res.Notes, fmt.Sprintf("%d base WALs harvested from real SQLite", len(bases)))
+
+	// virtual WALs > 4 GiB (own goroutine, in parallel with the worker pool; oracle only, no model)
+	bigc := bigCases(rnd.Fork(), o.Tier)
+	if o.Corpus != "" {
+		files, _ := filepath.Glob(filepath.Join(o.Corpus, "*.json"))
+		sort.Strings(files)
+		for _, f := range files {
+			if bc, ok := loadBig(f); ok {
+				bigc = append([]BigCase{bc}, bigc...)
+			}
+		}
+	}
+	bigDone := make(chan []bigOut, 1)
+	go func() {
+		var outs []bigOut
+		for _, c := range bigc {
+			outs = append(outs, runBig(c))
+		}
+		bigDone <- outs
+	}()
 
 	jobs := make(chan Job, 64)
 	var wg sync.WaitGroup
@@ -1372,6 +1392,9 @@ func main() {
 		files, _ := filepath.Glob(filepath.Join(o.Corpus, "*.json"))
 		sort.Strings(files)
 		for _, f := range files {
+			if _, isBig := loadBig(f); isBig {
+				continue
+			}
 			if j, err := loadJob(f); err == nil {
 				jobs <- j
 				res.Count("corpus")
@@ -1410,6 +1433,23 @@ func main() {
 	}
 	close(jobs)
 	wg.Wait()
+	var bigWall float64
+	for _, b := range <-bigDone {
+		res.Case(b.c.canon(), true)
+		kind := "resume"
+		if b.c.K == 0 {
+			kind = "fullscan"
+		}
+		res.Count(fmt.Sprintf("bigwal:%s:%s:ps%d", b.c.Op, kind, b.c.PS))
+		bigWall += b.wall.Seconds()
+		if b.sig != "" {
+			res.Count("bigwal:FAIL")
+			res.AddFinding("violation", b.sig, b.what, map[string]any{"bigwal": b.c, "engine": "c09"})
+		} else if b.c.K == 0 {
+			res.Sample(map[string]any{"bigwal": b.c, "result": b.summary, "wall_s": b.wall.Seconds()})
+		}
+	}
+	res.Notes = append(res.Notes, fmt.Sprintf("%d virtual-WAL cases beyond the 4 GiB mark (incl. one full scan of > 4 GiB) in %.1fs, judged by SQLite's rule computed from the generator parameters", len(bigc), bigWall))
 	if err := res.Write(o.Out); err != nil {
 		hx.Fatal(err)
 	}
@@ -1433,6 +1473,16 @@ func loadJob(path string) (Job, error) {
 }
 
 func replay(o *hx.Opts, tmp string) int {
+	if bc, ok := loadBig(o.Replay); ok {
+		out := runBig(bc)
+		fmt.Printf("bigwal case %s\n  -> %s (%.1fs)\n", bc.canon(), out.summary, out.wall.Seconds())
+		if out.sig != "" {
+			fmt.Printf("FAIL violation %s: %s\n", out.sig, out.what)
+			return 1
+		}
+		fmt.Println("no failure")
+		return 0
+	}
 	j, err := loadJob(o.Replay)
 	if err != nil {
 		hx.Fatal(err)
